@@ -372,6 +372,51 @@ struct t_grid
     return type{type::dim{w, h}, [&v, w](type::pos const &p) { return v[p.y() * w + p.x()]; }};
   }
 };
+// grids of DIFFERENT dimensions with the SAME element count (1x2 / 2x1, 0x0 / 0x1 / 1x0 ...): the shape of each grid is
+// chosen by the solver from a catalogue, the contents are symbolic (so identical storage-order contents are included)
+struct t_grid_shapes
+{
+  using type = fcppt::container::grid::object<int, 2>; using ctx = no_ctx;
+  static constexpr std::size_t K = 4; static constexpr bool has_less = true, has_rel = true, has_hash = false; // (grid offers no hash)
+  static type make(ctx &, char const *const n, key<K> &k)
+  {
+    static constexpr unsigned cat[7][2]{{0, 0}, {0, 1}, {1, 0}, {1, 1}, {1, 2}, {2, 1}, {0, 2}};
+    unsigned const s{verif_u8(n)};
+    verif_assume(s < 7);
+    unsigned const w{cat[s][0]}, h{cat[s][1]};
+    int const v[2]{s32(n), s32(n)};
+    k = {{w, h, 0, 0}};
+    for (unsigned i = 0; i < w * h; ++i) k.k[2 + i] = kv(v[i]);
+    type g{type::dim{w, h}, [&v, w](type::pos const &p) { return v[p.y() * w + p.x()]; }};
+    verif_assert(g.size() == type::dim{w, h} && g.content() == w * h, "grid size() is the dimension it was built with");
+    return g;
+  }
+};
+// shared_ptr built by the ALIASING constructor: ownership and stored address are independent.  Catalogue:
+//   0: owner o1 -> &o1->a   1: owner o1 -> &o1->b   2: owner o2 -> &o2->a   3: owner o2 -> &o1->a (other owner, same address as 0)
+//   4: owner o1 -> &global  5: owner o2 -> &global (different owners, same static object)   6: owner o2 -> &o2->b
+// ==, != and hash are documented to compare the stored pointer (get_pointer), < "their pointers with std::less": the key
+// is the stored address only, so < must not look at the owner (incomparability has to coincide with ==).
+int shared_global{7};
+struct t_shared_alias
+{
+  struct pair { int a, b; };
+  struct ctx { fcppt::shared_ptr<pair> o1{fcppt::make_shared_ptr<pair>(pair{7, 7})}, o2{fcppt::make_shared_ptr<pair>(pair{7, 7})}; };
+  using type = fcppt::shared_ptr<int>;
+  static constexpr std::size_t K = 1; static constexpr bool has_less = true, has_rel = false, has_hash = true;
+  static type make(ctx &c, char const *const n, key<K> &k)
+  {
+    unsigned const i{verif_u8(n)};
+    verif_assume(i < 7);
+    int *const addr[7]{&c.o1->a, &c.o1->b, &c.o2->a, &c.o1->a, &shared_global, &shared_global, &c.o2->b};
+    static constexpr unsigned cls[7]{0, 1, 2, 0, 3, 3, 4};
+    k = {{cls[i]}};
+    type r{(i == 0 || i == 1 || i == 4) ? type{c.o1, addr[i]} : type{c.o2, addr[i]}};
+    verif_assert(r.get_pointer() == addr[i] && &*r == addr[i], "aliasing constructor stores the given address");
+    return r;
+  }
+  static std::size_t hash(type const &v) { return std::hash<type>{}(v); }
+};
 struct t_tree
 {
   using type = fcppt::container::tree::object<int>; using ctx = no_ctx;
@@ -420,3 +465,6 @@ H(h_cmp_recursive, coherence<t_recursive>()) H(h_cmp_shared_ptr, coherence<t_sha
 H(h_cmp_grid, coherence<t_grid>()) H(h_cmp_tree, coherence<t_tree>()) H(h_cmp_raw_vector, coherence<t_raw_vector>())
 //@harness h_cmp_{T} for T in optional,either,variant,tuple,array,record,strong_typedef,vector,dim,matrix,box,sphere,bitfield,enum_array,reference,recursive,shared_ptr,nested_eq,nested_ord tier=quick loop=64
 //@harness h_cmp_{T} for T in grid,tree,raw_vector tier=thorough loop=64 wall=1500
+H(h_cmp_grid_shapes, coherence<t_grid_shapes>()) H(h_cmp_shared_alias, coherence<t_shared_alias>())
+//@harness h_cmp_grid_shapes tier=quick loop=64
+//@harness h_cmp_shared_alias tier=quick loop=64 leak=1
